@@ -835,6 +835,8 @@ def prepare_iter_for_array(
     has_non_str = False
     has_inexact = False
     has_big_int = False
+    has_bytes = False # bytes are never coerced with other types
+    has_non_bytes = False
 
     for v in v_iter:
         if copy_values:
@@ -861,8 +863,14 @@ def prepare_iter_for_array(
                     has_inexact = True
                 elif value_type == int and abs(v) > INT_MAX_COERCIBLE_TO_FLOAT:
                     has_big_int = True
+                if value_type == bytes or value_type == np.bytes_:
+                    has_bytes = True
+                else:
+                    has_non_bytes = True
 
             if has_tuple or has_enum or (has_str and has_non_str):
+                resolved = object
+            elif has_bytes and has_non_bytes:
                 resolved = object
             elif has_big_int and has_inexact:
                 resolved = object
